@@ -369,7 +369,8 @@ def pred_c09(line, st):
 
 # ---------------------------------------------------------------------------- C03 / C04 / C05
 VERIFY_OPS = ("zk.nizk.verify", "zk.cp.verify", "zk.mask.verify", "zk.remask.verify", "zk.dec.verify",
-              "zk.or.verify", "zk.key.final", "zk.se.verify", "zk.keypc.verify")
+              "zk.or.verify", "zk.key.final", "zk.se.verify", "zk.keypc.verify") + tuple(
+    "args.%s.verify.%s" % (a, m) for a in ("vrhe", "rot", "groth", "tmcg.hoogh", "tmcg.groth") for m in ("interactive", "publiccoin", "noninteractive"))
 
 
 def se_bits(a):
@@ -382,6 +383,9 @@ def pred_c03(line, st):
     if op in VERIFY_OPS and tag_of(a) == "honest":
         if not r or r[0] != "1":
             return "honest proof rejected (%s)" % (r[0] if r else "?")
+    if op.startswith("args.") and ".prove." in op and tag_of(a) == "honest":
+        if not r or r[0] != "1":
+            return "honest prover of the %s argument gave up (%s)" % (op.split(".")[1], r[0] if r else "?")
     if op == "zk.keypc.prove" and tag_of(a) == "honest":
         if not r or r[0] != "1":
             return "honest public-coin prover gave up (%s) although the verifier followed the protocol" % (r[0] if r else "?")
@@ -447,12 +451,16 @@ def pred_c05(line, st):
     if op == "zk.se.verify" and field == "s":
         if not any(b == 0 for b in se_bits(a)):
             return None  # the original stack is only looked at in rounds with challenge 0
+    if op == "zk.se.verify" and field == "s2":
+        if not any(b == 1 for b in se_bits(a)):
+            return None  # the shuffled stack is only mixed in rounds with challenge 1 (it is still membership-checked:
+                         # a mutated card that stays a group element passes when all challenge bits are 0, the 2^-kappa event of the protocol)
     if acc:
         return "verification still succeeds after mutation %s" % t
     return None
 
 
-ZK_AREAS = [("zk", {"quick": 25, "thorough": 80}, [], "fast")]
+ZK_AREAS = [("zk", {"quick": 25, "thorough": 80}, [], "fast"), ("args", {"quick": 11, "thorough": 11}, [], "fast")]
 ZK_TRUST = ["hash oracle replay: the model recomputes every Fiat-Shamir query string and takes the answer from the run",
             "the zk area runs the non-sanitized build (the library allocates 640 MB line buffers per stack read, which ASan makes very slow)"]
 LEVEL_NOTE = ("Trusted: Lean kernel, propext/Classical.choice/Quot.sound, the C++ harness and its libgcrypt interposer, the compiled Lean driver; "
@@ -490,7 +498,9 @@ PROPS["C02"] = dict(
 PROPS["C03"] = dict(
     module="TmcgProps.C03",
     areas=ZK_AREAS,
-    obligations=[("Tmcg.C03.stackeq_complete", "full"), ("Tmcg.C03.mix_glue", "full"),
+    obligations=[("Tmcg.C03.vrhe_complete_noninteractive", "full"), ("Tmcg.C03.vrhe_complete_interactive", "full"), ("Tmcg.C03.vrhe_complete_publiccoin", "full"),
+                 ("Tmcg.C03.groth_complete_noninteractive", "full"), ("Tmcg.C03.groth_complete_interactive", "full"), ("Tmcg.C03.groth_complete_publiccoin", "full"),
+                 ("Tmcg.C03.stackeq_complete", "full"), ("Tmcg.C03.mix_glue", "full"),
                  ("Tmcg.C03.nizk_complete", "full"), ("Tmcg.C03.cp_complete", "full"), ("Tmcg.C03.mask_complete", "full"),
                  ("Tmcg.C03.remask_complete", "full"), ("Tmcg.C03.decrypt_complete", "full"),
                  ("Tmcg.C03.or_first_complete", "full"), ("Tmcg.C03.or_second_complete", "full"),
@@ -498,10 +508,12 @@ PROPS["C03"] = dict(
     predicate=pred_c03,
     level_text="Completeness theorems in Lean 4 for the VTMF's proofs of knowledge (key NIZK, Chaum-Pedersen in both modes, masking, re-masking, decryption, OR, interactive key proof) and for the cut-and-choose proof of stack equality (shuffle and rotation, every size 1..TMCG_MAX_CARDS, every number of rounds and challenge bits, through the text codec): "
                "for every valid group, witness, coin and hash the model verifier accepts the model prover's transcript. Prover and verifier of the real library are each compared "
-               "separately with the model (same coins, same oracle answers, byte-identical hash queries). Partial: Groth/Hoogh shuffle arguments, Rabin key proofs, Pedersen/JL protocols are covered by correspondence only so far.",
+               "separately with the model (same coins, same oracle answers, byte-identical hash queries). Rotation argument (Hoogh et al. VRHE with PUBROTZK) and Groth's shuffle argument (VSSHE with SKC and Pedersen commitments): completeness in all three modes for every n >= 2, every rotation/permutation and all coins "
+               "(Groth: under the three conditions on the verifier's coins under which the library itself refuses an honest proof), real prover -> real verifier and each vs the model for n = 2..9, 16, 32, 52. "
+               "Partial: the NIZK stages of Rabin key generation are covered by correspondence only.",
     level_note=LEVEL_NOTE,
     trusted=ZK_TRUST,
-    assumptions=["partial: completeness theorems exist for the discrete-log VTMF proofs; Groth, VRHE, Rabin-key and commitment protocols: correspondence (real prover -> real verifier, and each vs model where modelled) only"],
+    assumptions=["partial: completeness theorems exist for the discrete-log VTMF proofs; Rabin-key NIZK stages: correspondence (real prover -> real verifier, and each vs model where modelled) only"],
 )
 PROPS["C08"] = dict(
     module="TmcgProps.C08",
@@ -569,7 +581,8 @@ PROPS["C04"] = dict(
                "and replays the exact cut-and-choose statement (a false statement survives exactly the rounds whose challenge the prover can answer). "
                "Cut-and-choose: if one commitment can be opened for both challenge bits, a re-masking (cyclic) permutation relating the two stacks is extracted or an explicit hash collision exhibited; hence for a false statement, "
                "any commitments and ANY response strategy at most one of the 2^kappa challenge vectors is accepted (probability <= 2^-kappa; proving this exposed finding F26). "
-               "Partial: knowledge soundness of the Groth/Hoogh arguments is not proved in Lean.",
+               "Rotation / shuffle arguments: false statements (replaced, swapped, duplicated, retyped cards, non-cyclic permutation as rotation) are played against the real verifiers and the model; the exact challenge values on which such a cheat passes are exhibited (lucky:* lines). "
+               "Partial: knowledge soundness of the Groth/Hoogh arguments is not proved in Lean (decision logic + correspondence only).",
     level_note=LEVEL_NOTE + " Hash collision resistance and hardness of discrete logs are assumptions named in the theorem statements (explicit Collision disjunct).",
     trusted=ZK_TRUST,
     assumptions=["partial: Groth/VRHE knowledge soundness not attempted; the 2^-kappa bound assumes no hash collision among stack texts (explicit hypothesis NoStackCollision)",
@@ -578,7 +591,8 @@ PROPS["C04"] = dict(
 PROPS["C05"] = dict(
     module="TmcgProps.C05",
     areas=ZK_AREAS,
-    obligations=[("Tmcg.C05.shash_input_injective", "full"), ("Tmcg.C05.cp_hash_covers", "full"),
+    obligations=[("Tmcg.C05.hooghVerifyStack_refuses", "full"), ("Tmcg.C05.grothVerifyStack_refuses", "full"),
+                 ("Tmcg.C05.shash_input_injective", "full"), ("Tmcg.C05.cp_hash_covers", "full"),
                  ("Tmcg.C05.cp_range_refuse", "full"), ("Tmcg.C05.nizk_range_refuse", "full"),
                  ("Tmcg.C05.cp_bind", "full"), ("Tmcg.C05.nizk_bind", "full"),
                  ("Tmcg.C05.cp_equivalent_response", "full"), ("Tmcg.C05.fpowm_wrong_base_refused", "full")],
@@ -1528,9 +1542,15 @@ def pred_c20(line, st):
         if tag.startswith("honest"):
             cov["sig"].add((a[1], a[2], a[3]))
             return None if verdict == "ok" else "honest signature refused (%s, %s)" % (what, tag)
+        if tag.startswith("flip:sig-unhashed:"):
+            # a field of the packet that is neither hashed nor the signature value (V3: key ID, public-key algorithm octet;
+            # V4/V5: unhashed subpacket area): the property demands nothing; the left 16 bits must still fail the quick check
+            if tag.startswith("flip:sig-unhashed:left16:") and verdict == "ok":
+                return "signature with altered left 16 bits accepted (%s, %s)" % (what, tag)
+            return None
         if verdict == "ok":
-            # a changed packet that still parses to the same signature (MPI bit count slack, re-synchronised header,
-            # the unhashed key ID of a V3 signature) is another encoding of it, not an altered signature
+            # a changed packet that still parses to the same signature (MPI bit count slack, re-synchronised header)
+            # is another encoding of it, not an altered signature
             if tag.startswith("flip:sig-") and same == "same=1":
                 return None
             return "altered / invalid signature accepted (%s, %s)" % (what, tag)
